@@ -12,7 +12,7 @@ import (
 
 var (
 	c28ShiftNegRe     = regexp.MustCompile(`\bshift '?-[0-9]*[1-9]`)
-	c28SubscriptRe    = regexp.MustCompile(`\$\{[!#]?[A-Za-z_][A-Za-z0-9_]*\[[^\]]`)
+	c28SubscriptRe    = regexp.MustCompile(`[A-Za-z_][A-Za-z0-9_]*\[[^\]]`)
 	c28AssocLitRe     = regexp.MustCompile(`-[a-zA-Z]*A[a-zA-Z]*\b[^;\n]*=\(`)
 	c28EmptyArgRe     = regexp.MustCompile(`(''|""|[A-Za-z_]=['"]?([ ;\n]|$))`)
 	c28ParamAtOpRe    = regexp.MustCompile(`\$\{[^}]*@`)
@@ -39,7 +39,8 @@ func init() {
 			return frame == "interp.(*getopts).next" && c28IndexBeyondRe.MatchString(msg) && strings.Contains(src(t), "getopts")
 		}},
 		{"assoc-subscript-not-a-word", func(t c28Case, msg, frame string) bool {
-			// ${x[-1]}, ${x[1+2]}, ${x[i]:=v} on an associative array: the subscript was parsed as arithmetic
+			// ${x[-1]}, ${x[1+2]}, ${x[i]:=v}, $((x[-y])), x[x[-y]]=v on an associative array: a
+			// subscripted name whose subscript was parsed as arithmetic
 			return (frame == "expand.(*Config).varInd" || frame == "expand.(*Config).assignElem") &&
 				strings.HasPrefix(msg, "interface conversion: syntax.ArithmExpr is *syntax.") && strings.HasSuffix(msg, "not *syntax.Word") &&
 				c28SubscriptRe.MatchString(src(t))
